@@ -79,21 +79,36 @@ def isolated(fn, arg):
     return pickle.loads(data)
 
 
+def _caches(utils):
+    """The two memo dicts, if the implementation still keeps them under these (private) names.  They are observed only
+    to bind the cache *model* (drift) and to confirm that the harness starts from empty caches; the property itself is
+    judged on outcomes alone, so an implementation that stores its results differently is simply not observed here."""
+    a = getattr(utils, '_schema_valid_cache', None)
+    b = getattr(utils, '_valid_against_schema_cache', None)
+    if isinstance(a, dict) and isinstance(b, dict):
+        return a, b
+    return None
+
+
 def _fresh_one(arg):
     call, ef = arg
     from athlib import utils
-    assert not utils._schema_valid_cache and not utils._valid_against_schema_cache
+    cc = _caches(utils)
+    assert cc is None or (not cc[0] and not cc[1])
     return do_call(call, ef)
 
 
 def _history(calls):
     from athlib import utils
-    assert not utils._schema_valid_cache and not utils._valid_against_schema_cache
+    cc = _caches(utils)
+    assert cc is None or (not cc[0] and not cc[1])
     out = []
     for call, ef in calls:
         o = do_call(call, ef)
-        out.append((o, [_keytext(k) for k in list(utils._schema_valid_cache.keys())],
-                    [_keytext(k) for k in list(utils._valid_against_schema_cache.keys())]))
+        if cc is None:
+            out.append((o, None, None))
+        else:
+            out.append((o, [_keytext(k) for k in list(cc[0].keys())], [_keytext(k) for k in list(cc[1].keys())]))
     return out
 
 
@@ -238,20 +253,48 @@ def run(tier):
         # an sv-only and a va-only history that certainly overflow one cache
         histories.append([(c, False) for c in sv[:30]] + [(c, True) for c in sv[:30]])
         histories.append([(c, False) for c in va[:30]] + [(c, True) for c in va[:30]])
+        # ... and that would overflow much larger caches too (the limit is an implementation detail)
+        histories.append([(c, False) for c in sv[:150]] + [(c, True) for c in sv[:150:3]] + [(c, False) for c in sv[:150:2]])
+        histories.append([(c, False) for c in va[:150]] + [(c, True) for c in va[:150:3]] + [(c, False) for c in va[:150:2]])
+        # the call history of the repository's own test session (tests/test_json.py run under the recording plugin):
+        # replayed here from empty caches, and its recorded outcomes are compared with the fresh-process outcomes too
+        suite_hist, suite_outs = suite_history(sc)
+        for c, ef in suite_hist:
+            for e2 in (False, True):
+                if (key_id(c), c[0], e2) not in fresh:
+                    fresh[(key_id(c), c[0], e2)] = isolated(_fresh_one, (c, e2))
+        if suite_hist:
+            histories.append(list(suite_hist))
         with ctx.Pool(common.NCPU) as pool:
             results = pool.map(_pool_history, histories, chunksize=16)
-        traces, evictions = [], 0
+        traces, evictions, observable, overflowed, maxlen_seen = [], 0, True, 0, 0
         for calls, res in zip(histories, results):
-            recs, prev = [], 0
+            recs, prev = [], ([], [])
             for (c, ef), (o, svk, vak) in zip(calls, res):
-                recs.append({'fn': c[0], 'k': key_id(c), 'ef': ef, 'out': o, 'fresh': F(c, ef), 'svk': svk, 'vak': vak})
-                if len(svk) == 20 or len(vak) == 20:
-                    evictions += 1
+                obs_ = svk is not None
+                observable = observable and obs_
+                recs.append({'fn': c[0], 'k': key_id(c), 'ef': ef, 'out': o, 'fresh': F(c, ef), 'obs': obs_,
+                             'svk': svk or [], 'vak': vak or []})
+                if obs_:
+                    if len(svk) == 20 or len(vak) == 20:
+                        evictions += 1
+                    maxlen_seen = max(maxlen_seen, len(svk), len(vak))
+                    # a key that was held is gone: an eviction happened (whatever the limit is)
+                    if (set(prev[0]) - set(svk)) or (set(prev[1]) - set(vak)):
+                        overflowed += 1
+                    prev = (svk, vak)
             traces.append({'calls': recs})
         rep.count('evaluations', sum(len(h) for h in histories))
-        rep.setcov('histories', dict(from_tlc=len(hists) * ninst, related_key_pairs=n_related, long_random=nlong + 2, steps_at_cache_limit=evictions))
-        if evictions == 0:
-            raise MachineryError('vacuity guard: the cache limit was never reached')
+        rep.setcov('histories', dict(from_tlc=len(hists) * ninst, related_key_pairs=n_related, long_random=nlong + 4, steps_at_cache_limit=evictions,
+                                     caches_observable=observable, steps_after_overflow=overflowed, largest_cache_seen=maxlen_seen,
+                                     repository_suite_history=len(suite_hist)))
+        if observable and not overflowed and maxlen_seen <= 20:
+            raise MachineryError('vacuity guard: no history overflowed a cache (largest seen: %d entries)' % maxlen_seen)
+        if not observable:
+            rep.notes.append('the memo dicts are not kept under their former names: the cache model is not bound in this run '
+                             '(outcomes are still compared with fresh-process outcomes on every history)')
+        elif not overflowed:
+            rep.notes.append('no history overflowed the caches (largest seen %d entries, up to %d distinct keys per history)' % (maxlen_seen, 150))
         # (c) TLC validates
         shards = common.shard(list(range(len(traces))), common.NCPU)
         envs = []
@@ -276,6 +319,14 @@ def run(tier):
                                   'after %d earlier call(s) %s(%s, expect_failure=%s) gave %s; fresh process gives %s' % (
                                       pr['l'] - 1, rec['fn'], rec['k'], rec['ef'], rec['out'], rec['fresh']),
                                   {'calls': [[list(c), ef] for c, ef in calls]})
+        # the outcomes the test session itself saw (recorded inside pytest, one process, the suite's own order)
+        for i, ((c, ef), o) in enumerate(zip(suite_hist, suite_outs)):
+            rep.count('suite_session_calls_compared')
+            if o != F(c, ef):
+                rep.add_violation('history:%s:ef=%s:%s->%s' % (c[0], ef, F(c, ef), o),
+                                  'in the repository test session, call %d %s(%s, expect_failure=%s) gave %s; fresh process gives %s' % (
+                                      i + 1, c[0], key_id(c), ef, o, F(c, ef)),
+                                  {'calls': [[list(c_), e_] for c_, e_ in suite_hist[:i + 1]]})
         rep.setcov('distinct_nontrivial', len({json.dumps(t, sort_keys=True) for t in traces}))
         rep.setcov('rule', 'distinct recorded histories (call sequence with outcomes and cache key lists)')
         rep.sample({'history': [(key_id(c), ef) for c, ef in histories[len(hists) // 2]],
@@ -285,6 +336,51 @@ def run(tier):
                         'sockets are disabled in every child; a network attempt surfaces as a different outcome',
                         'model bounds: 4 abstract keys per cache, limit 2, histories <= 3; concrete limit 20']
     return rep.finish()
+
+
+def suite_history(sc):
+    """tests/test_json.py under harness/pytest_trace.py: the session's schema_valid / valid_against_schema calls in the
+    c19 call format, and the outcomes the session saw.  Calls the format cannot express are dropped (with the rest of
+    the history kept in order, which is still a history)."""
+    import subprocess
+    out = sc.file('suite_schema.ndjson')
+    env = dict(os.environ, VERIF_PYTEST_TRACE=out, PYTHONPATH=common.VERIF + os.pathsep + common.REPO, ATHLIB_VERIF='1',
+               PYTHONDONTWRITEBYTECODE='1')
+    subprocess.run([sys.executable, '-m', 'pytest', '-q', '-p', 'no:cacheprovider', '-p', 'harness.pytest_trace', 'tests/test_json.py'],
+                   cwd=common.REPO, env=env, stdout=subprocess.PIPE, stderr=subprocess.STDOUT, timeout=900)
+    calls, outs = [], []
+    if not os.path.exists(out):
+        return calls, outs
+    import inspect
+    from athlib import utils
+    try:
+        default_validator = inspect.signature(utils.schema_valid).parameters['validator'].default.__name__
+    except Exception:
+        default_validator = 'Draft3Validator'
+    with open(out) as f:
+        for line in f:
+            d = json.loads(line)
+            if d.get('kind') != 'schema':
+                continue
+            for h in d['history']:
+                a, kw = h['args'], h['kwargs']
+                if set(kw) - {'validator', 'expect_failure', 'schema_file', 'json_file'}:
+                    continue
+                ef = bool(kw.get('expect_failure', a[2] if len(a) > 2 and h['fn'] == 'valid_against_schema' else (a[2] if len(a) > 2 else False)))
+                if h['fn'] == 'schema_valid':
+                    v = kw.get('validator', a[1] if len(a) > 1 else 'class:' + default_validator)
+                    if not (isinstance(v, str) and v.startswith('class:')) or not a or not isinstance(a[0], str):
+                        continue
+                    c = ('sv', a[0], v[6:])
+                else:
+                    if len(a) < 2 or not all(isinstance(x, str) for x in a[:2]):
+                        continue
+                    c = ('va', a[0], a[1])
+                o = h['out']
+                o = 'Raise:' + o[4:] if o.startswith('exc:') else o[4:] if o in ('ret:True', 'ret:False') else 'Value:' + o[4:]
+                calls.append((c, ef))
+                outs.append(o)
+    return calls, outs
 
 
 def replay(rec):
